@@ -23,6 +23,15 @@ def run(ck, tier, seed):
         if o.get("skipped"):
             ck.cov["not_run_unbounded_growth"] = ck.cov.get("not_run_unbounded_growth", 0) + 1
             continue
+        if c["out"].get("class") == "syntax":
+            # a line the language has no statement for (`o.x = 7` without `$`): the front end must refuse it
+            ck.cov["evaluations"] += 1
+            if "parse" not in o:
+                sig = "accepted-what-is-not-a-statement/" + "/".join(p["tags"][:3])
+                if sig not in seen:
+                    seen.add(sig)
+                    ck.mismatch(sig, {"src": c["src"], "ran-as": o.get("interp")}, replay={"kind": "lang", "prog": p})
+            continue
         if "parse" in o:
             sig = "parse/" + "/".join(p["tags"][:2])
             if sig not in seen:
